@@ -10,6 +10,7 @@ def setup_all(build_harness):
 
 
 PROPS["C10"] = {
+    "fuzz": [("unixstr_one", 240), ("unixstr_pair", 120)],
     "level": "exploration",
     "profiles": ["dev", "release"],
     "workers": 8,
@@ -25,6 +26,7 @@ PROPS["C10"] = {
 }
 
 PROPS["C11"] = {
+    "fuzz": [("unixstr_pair", 300)],
     "level": "exploration",
     "profiles": ["dev", "release"],
     "workers": 8,
@@ -42,6 +44,7 @@ PROPS["C11"] = {
 
 
 PROPS["C17"] = {
+    "fuzz": [("ring", 300)],
     "level": "exploration",
     "profiles": ["dev", "release"],
     "workers": 8,
